@@ -1,4 +1,7 @@
 import MirProofs.Lemmas.SeparationLS
+import MirProofs.Lemmas.SeparationLSAny
+import MirProofs.Lemmas.SeparationDb
+import Mathlib.Data.List.Forall2
 import MirProofs.Props.C19
 /-!
   C19 (exact least-squares projection) — DESIGN §5 C19, deepening.
@@ -17,6 +20,11 @@ import MirProofs.Props.C19
   The only side conditions left are the well-formedness of the input (`WF`: `flen ≥ 1`, references as long as
   the estimate, valid source index — the domain of the driver op) and, where a value is asserted, that the Gram
   matrices are non-singular (`solve?` succeeded).
+    * the singular branch (`except LinAlgError: lstsq`, model `solveAny?` / `projectAny`) needs NO such condition:
+      normal equations are always consistent and elimination with free unknowns set to 0 solves every consistent
+      system, so `projectAny` is total, satisfies the normal equations and minimises the squared error
+      (`solveAny_isSome_iff`, `normal_equations_consistent`, `solveAny_normal_equations`, `projectAny_total`,
+      `projectAny_least_squares`).
 -/
 namespace Mir.C19.LS
 open Mir Mir.Separation Mir.SeparationLS
@@ -319,6 +327,26 @@ theorem bestPermMul_maximises (n : Nat) (S : Nat → Nat → Rat) (q : List Nat)
     prodFrom S 0 q ≤ prodFrom S 0 (bestPermMul n S) :=
   bestPermMul_max n S q hq
 
+/-- **argmax of the mean SIR in dB = argmax of the product of the SIR ratios.**  Over the reals, for positive
+    ratios, the permutation the exact model selects is `perms[np.argmax(mean_sir)]` with `mean_sir` the mean of
+    `10·log10` of the ratios (`meanSirDb`): the FIRST permutation in `itertools.permutations` order of maximal mean
+    SIR in decibel.  (`Σ_j 10 log10 S_j = 10 log10 Π_j S_j`, `log10` strictly increasing.) -/
+theorem bestPermMul_is_first_argmax_db (n : Nat) (hn : 0 < n) (S : Nat → Nat → Rat)
+    (hpos : ∀ e < n, ∀ j < n, 0 < S e j) :
+    ∃ pre post, perms (List.range n) = pre ++ bestPermMul n S :: post ∧
+      (∀ q ∈ pre, meanSirDb n S q < meanSirDb n S (bestPermMul n S)) ∧
+      (∀ q ∈ post, meanSirDb n S q ≤ meanSirDb n S (bestPermMul n S)) :=
+  bestPermMul_first_argmax_db n hn S hpos
+
+/-- the two orders agree on any two assignments -/
+theorem mean_db_le_iff_prod_le (n : Nat) (hn : 0 < n) (S : Nat → Nat → Rat) (hpos : ∀ e < n, ∀ j < n, 0 < S e j)
+    (p q : List Nat) (hp : p.Perm (List.range n)) (hq : q.Perm (List.range n)) :
+    meanSirDb n S p ≤ meanSirDb n S q ↔ prodFrom S 0 p ≤ prodFrom S 0 q :=
+  meanSirDb_le_iff n hn S hpos hp hq
+
+example : meanSirDb 2 (fun _ _ => 10) [0, 1] = 10 := by
+  simp [meanSirDb, sumDbFrom]
+
 /-- END TO END (estimate): every output of the exact `bss_eval_sources` — SDR, SIR, SAR of every source and the
     permutation, with or without `compute_permutation` — is unchanged when one estimated source is multiplied
     by `c ≠ 0`. -/
@@ -392,6 +420,121 @@ example : projectAny [[1, 2, 0, -1], [1, 2, 0, -1]] [2, 1, 0, 5] 2 = some [-1/4,
     project [[1, 2, 0, -1]] [2, 1, 0, 5] 2 = some [-1/4, -1/4, 1/2, 1/4, -1/4] := by
   constructor <;> decide +kernel
 
+/-- COMPLETENESS of `solveAny?`: it succeeds exactly on the CONSISTENT square systems (those that have a solution),
+    singular or not. -/
+theorem solveAny_isSome_iff (A : List (List Rat)) (b : List Rat) (hb : b.length = A.length) :
+    (solveAny? A b).isSome ↔ ∃ y : List Rat, y.length = A.length ∧ mulVec A y = b := by
+  unfold solveAny?
+  rw [solveAnyRows_isSome_iff]
+  constructor
+  · rintro ⟨y, hy, hsat⟩
+    refine ⟨y, hy, ?_⟩
+    apply List.ext_getElem
+    · simp [mulVec, hb]
+    · intro i hi1 hi2
+      simp only [mulVec, List.length_map] at hi1
+      have := hsat (A[i], b[i]) (mem_zip_iff.2 ⟨i, hi1, hi2, rfl⟩)
+      simpa [mulVec] using this
+  · rintro ⟨y, hy, hmul⟩
+    refine ⟨y, hy, ?_⟩
+    intro r hr
+    obtain ⟨i, hi1, hi2, rfl⟩ := mem_zip_iff.1 hr
+    have : (mulVec A y)[i]'(by simp [mulVec, hi1]) = b[i] := by simp [hmul]
+    simpa [mulVec] using this
+
+/-- CONSISTENCY OF NORMAL EQUATIONS: for every finite family `B` of signals (linearly dependent or not) and every
+    target `se`, the system `G y = D` with `G = gram B` (`G[k][l] = ⟨B_k, B_l⟩`) and `D = dots B se`
+    (`D[k] = ⟨B_k, se⟩`) has a solution — the orthogonal projection on the span of `B` exists. -/
+theorem normal_equations_consistent (B : List (List Rat)) (se : List Rat) :
+    ∃ y : List Rat, y.length = B.length ∧ mulVec (gram B) y = dots B se := by
+  obtain ⟨y, hy, hsat⟩ := normal_equations_solvable B se
+  refine ⟨y, hy, ?_⟩
+  simp only [mulVec, gram, dots, List.map_map]
+  apply List.map_congr_left
+  intro u hu
+  simp only [Function.comp_def]
+  have := hsat u hu
+  rw [← dot_dots_eq] at this
+  rw [dot_comm se u, ← this]
+
+/-- **`solveAny?` always succeeds on normal equations**: Gaussian elimination with free unknowns set to 0 finds a
+    solution of `G x = D` whenever `G`, `D` are the Gram matrix and right-hand side of a least-squares problem. -/
+theorem solveAny_normal_equations (B : List (List Rat)) (se : List Rat) :
+    ∃ x, solveAny? (gram B) (dots B se) = some x ∧ x.length = B.length ∧ mulVec (gram B) x = dots B se := by
+  obtain ⟨x, hx⟩ := Option.isSome_iff_exists.1 (solveAny_gram_isSome B se)
+  obtain ⟨h1, h2⟩ := solveAny_sound (gram B) (dots B se) x (by simp [gram]) hx
+  exact ⟨x, hx, by simpa [gram] using h1, h2⟩
+
+/-- **The lstsq fall-back of the exact model is TOTAL**, and what it returns satisfies the normal equations: for
+    ALL references (dependent, empty, of any lengths), estimates and filter lengths `_project` through its singular
+    branch returns a signal whose residual is orthogonal to every delayed reference
+    (`projectAny_normal_equations` without its "returned" hypothesis). -/
+theorem projectAny_total (refs : List (List Rat)) (est : List Rat) (flen : Nat) :
+    ∃ p, projectAny refs est flen = some p ∧
+      ∀ r ∈ refs, ∀ d < flen,
+        dot (delayed ((refs.headD []).length + flen - 1) d r) (vsub (est ++ zeros (flen - 1)) p) = 0 := by
+  obtain ⟨p, hp⟩ := Option.isSome_iff_exists.1
+    (projectOnAny_isSome (basis ((refs.headD []).length + flen - 1) flen refs) (est ++ zeros (flen - 1)))
+  have hp' : projectAny refs est flen = some p := hp
+  exact ⟨p, hp', projectAny_normal_equations refs est flen p hp'⟩
+
+/-- LEAST SQUARES through the singular branch: no combination of the delayed references is closer to the
+    (zero-padded) estimate than what `projectAny` returns. -/
+theorem projectAny_least_squares (refs : List (List Rat)) (est : List Rat) (flen : Nat) (p : List Rat)
+    (h : projectAny refs est flen = some p) (c : List Rat) :
+    let se := est ++ zeros (flen - 1)
+    let q := lincomb c (basis ((refs.headD []).length + flen - 1) flen refs)
+    dot (vsub se p) (vsub se p) ≤ dot (vsub se q) (vsub se q) :=
+  projectOnAny_least_squares _ _ p h c
+
+/-- where the plain solver succeeds (independent delayed references) the fall-back returns the same coefficients,
+    hence the same signal up to the zero padding of `projectOnAny` -/
+theorem projectAny_extends_project (refs : List (List Rat)) (est : List Rat) (flen : Nat) (p : List Rat)
+    (h : project refs est flen = some p) :
+    projectAny refs est flen = some (padd p (zeros (est ++ zeros (flen - 1)).length)) := by
+  simp only [project, projectOn] at h
+  obtain ⟨x, hx, rfl⟩ := Option.map_eq_some_iff.1 h
+  simp only [projectAny, projectOnAny, solveAny_extends_solve _ _ _ hx, Option.map_some]
+
+/-- **ANY solution of the normal equations gives the same projected signal**: if `c` (one coefficient per delayed
+    reference) satisfies `G c = D` — for instance the minimum-norm solution `np.linalg.lstsq` returns on a singular
+    system — then `Σ c_l B_l` is exactly the signal the model's fall-back returns.  So the choice "free unknowns = 0"
+    of `solveAny?` is immaterial for `_project`. -/
+theorem projectAny_eq_of_solution (refs : List (List Rat)) (est : List Rat) (flen : Nat) (c : List Rat)
+    (hc : c.length = refs.length * flen)
+    (hsol : mulVec (gram (basis ((refs.headD []).length + flen - 1) flen refs)) c =
+      dots (basis ((refs.headD []).length + flen - 1) flen refs) (est ++ zeros (flen - 1))) :
+    projectAny refs est flen =
+      some (padd (lincomb c (basis ((refs.headD []).length + flen - 1) flen refs))
+        (zeros (est ++ zeros (flen - 1)).length)) := by
+  set B := basis ((refs.headD []).length + flen - 1) flen refs with hB
+  apply projectOnAny_eq_of_solution ((refs.headD []).length + flen - 1) B
+    (fun b hb => length_of_mem_basis hb) _ c (by rw [hc, hB, length_basis])
+  intro u hu
+  obtain ⟨i, hi, rfl⟩ := List.getElem_of_mem hu
+  have h1 : (mulVec (gram B) c)[i]'(by simp [mulVec, gram, hi]) =
+      (dots B (est ++ zeros (flen - 1)))[i]'(by simp [hi]) := by simp [hsol]
+  simp only [mulVec, gram, dots, List.getElem_map] at h1
+  have h2 := dot_dots_eq B[i] B c
+  simp only [dots] at h2
+  rw [← h2, h1, dot_comm]
+
+/-- the signals of two solutions cannot be told apart by any vector, whatever the lengths involved -/
+theorem normal_equations_signal_unique (B : List (List Rat)) (se x x' : List Rat)
+    (hx : ∀ u ∈ B, dot u (lincomb x B) = dot u se) (hx' : ∀ u ∈ B, dot u (lincomb x' B) = dot u se)
+    (w : List Rat) : dot (lincomb x B) w = dot (lincomb x' B) w :=
+  normal_solutions_same_signal B se x x' hx hx' w
+
+/-- the multichannel fall-back (`_project_images` through `lstsq`) is total as well -/
+theorem projectImagesAny_total (rows es : List (List Rat)) (flen : Nat) :
+    (projectImagesAny rows es flen).isSome :=
+  mapM_isSome_of_forall _ es (fun _ _ => projectOnAny_isSome _ _)
+
+example : solveAny? [[1, 2], [2, 4]] [1, 2] = some [1, 0] ∧ solveAny? [[1, 2], [2, 4]] [1, 3] = none ∧
+    gram [[1, 2], [2, 4]] = [[5, 10], [10, 20]] ∧ dots [[1, 2], [2, 4]] [1, 0] = [1, 2] ∧
+    solveAny? (gram [[1, 2], [2, 4]]) (dots [[1, 2], [2, 4]] [1, 0]) = some [1/5, 0] := by
+  refine ⟨?_, ?_, ?_, ?_, ?_⟩ <;> decide +kernel
+
 /-! ## 6. images: `_project_images` is `_project` channel by channel -/
 
 /-- Every channel of the estimate is projected, independently, on ALL delayed reference channels: the exact
@@ -424,6 +567,59 @@ theorem projectImages_homogeneous (rows : List (List Rat)) (flen : Nat) (c : Rat
         cases projectImages rows es flen with
         | none => rfl
         | some ps => rfl
+
+/-- `_project_images` succeeds exactly when `_project` succeeds on every channel, and then returns the channel
+    projections in order. -/
+theorem projectImages_channelwise (rows : List (List Rat)) (flen : Nat) : ∀ (es ps : List (List Rat)),
+    projectImages rows es flen = some ps ↔ List.Forall₂ (fun e p => project rows e flen = some p) es ps
+  | [], ps => by
+      rw [projectImages_nil]
+      constructor
+      · intro h; cases h; exact List.Forall₂.nil
+      · intro h; cases h; rfl
+  | e :: es, ps => by
+      rw [projectImages_cons]
+      constructor
+      · intro h
+        cases hp : project rows e flen with
+        | none => simp [hp] at h
+        | some p =>
+          cases hq : projectImages rows es flen with
+          | none => simp [hp, hq] at h
+          | some qs =>
+            simp only [hp, hq, Option.bind_some, Option.map_some, Option.some.injEq] at h
+            subst h
+            exact List.Forall₂.cons hp ((projectImages_channelwise rows flen es qs).1 hq)
+      · intro h
+        cases h with
+        | cons h1 h2 =>
+          rw [h1, (projectImages_channelwise rows flen es _).2 h2]
+          rfl
+
+/-- NORMAL EQUATIONS for images: the residual of every projected channel is orthogonal to every delayed reference
+    channel. -/
+theorem projectImages_normal_equations (rows es ps : List (List Rat)) (flen : Nat)
+    (h : projectImages rows es flen = some ps) :
+    ps.length = es.length ∧ ∀ ep ∈ es.zip ps, ∀ r ∈ rows, ∀ d < flen,
+      dot (delayed ((rows.headD []).length + flen - 1) d r) (vsub (ep.1 ++ zeros (flen - 1)) ep.2) = 0 := by
+  have hf := (projectImages_channelwise rows flen es ps).1 h
+  obtain ⟨hlen, hz⟩ := List.forall₂_iff_zip.1 hf
+  refine ⟨hlen.symm, ?_⟩
+  rintro ⟨e, p⟩ hep r hr d hd
+  exact project_normal_equations rows e flen p (hz hep) r hr d hd
+
+/-- LEAST SQUARES for images: no combination of the delayed reference channels is closer to a channel of the
+    estimate than its projection. -/
+theorem projectImages_least_squares (rows es ps : List (List Rat)) (flen : Nat)
+    (h : projectImages rows es flen = some ps) (c : List Rat) :
+    ∀ ep ∈ es.zip ps,
+      dot (vsub (ep.1 ++ zeros (flen - 1)) ep.2) (vsub (ep.1 ++ zeros (flen - 1)) ep.2) ≤
+        dot (vsub (ep.1 ++ zeros (flen - 1)) (lincomb c (basis ((rows.headD []).length + flen - 1) flen rows)))
+          (vsub (ep.1 ++ zeros (flen - 1)) (lincomb c (basis ((rows.headD []).length + flen - 1) flen rows))) := by
+  have hf := (projectImages_channelwise rows flen es ps).1 h
+  obtain ⟨-, hz⟩ := List.forall₂_iff_zip.1 hf
+  rintro ⟨e, p⟩ hep
+  exact project_least_squares rows e flen p (hz hep) c
 
 example : projectImages [[1, 2, 0, -1], [0, 1, 1, 3]] [[2, 1, 0, 5], [4, 2, 0, 10]] 2 =
     some [[31/76, 131/76, -11/38, 369/76, 11/76], [31/38, 131/38, -11/19, 369/38, 11/38]] := by
